@@ -40,11 +40,14 @@ Record case := mkCase {
   c_err : bool;               (* the compaction returned an error *)
   c_out : list cseries;       (* output block, index order; [] when no block was written *)
   c_stats : stats;            (* BlockMeta.Stats of the output (zeros when no block) *)
-  c_query_eq : bool           (* block querier result == decoded chunks, per series (Go side) *)
+  c_query_eq : bool;          (* block querier result == decoded chunks, per series (Go side) *)
+  c_cuts : bool               (* "rich" histograms present (counter resets, layout / schema changes,
+                                 stale markers): the histogram appenders cut and recode chunks on
+                                 their own, which the model does not predict *)
 }.
 Definition rCase (id mode : int) (cp : bool) (bs : list block) (mint maxt : int) (err : bool)
-           (out : list cseries) (st : stats) (q : bool) : case :=
-  mkCase (unz id) (unz mode) cp bs (unz mint) (unz maxt) err out st q.
+           (out : list cseries) (st : stats) (q cuts : bool) : case :=
+  mkCase (unz id) (unz mode) cp bs (unz mint) (unz maxt) err out st q cuts.
 
 (* ---------------------------------------------------------------- helpers *)
 Definition mem_sample (s : sample) (l : list sample) : bool := existsb (sample_eqb s) l.
@@ -74,7 +77,7 @@ Definition agree_compacting (c : case) (mint maxt : Z) : bool :=
   | None => c_err c
   | Some (out, st) =>
       negb (c_err c) &&
-      let lenient := c_mode c =? 2 in
+      let lenient := (c_mode c =? 2) || c_cuts c in
       let surv := survivors (c_mint c) (cmax c) (c_blocks c) in
       let unamb := forallb (fun o => kinds_unambiguous (surv (fst o))) out in
       all2 (fun m o =>
@@ -84,9 +87,10 @@ Definition agree_compacting (c : case) (mint maxt : Z) : bool :=
               (if kinds_unambiguous (surv (fst o)) && negb lenient then shape_eqb (snd m) (snd o) else true))
            out (c_out c) &&
       (if lenient then
-         (* head range: the head's chunk layout is not modelled; everything but NumChunks *)
+         (* head range / appender-induced cuts: the chunk layout is not modelled; everything but
+            NumChunks (and the by-type counts only when no tie decides a sample's type) *)
          (st_series st =? st_series (c_stats c)) && (st_samples st =? st_samples (c_stats c)) &&
-         (st_hist st =? st_hist (c_stats c)) && (st_float st =? st_float (c_stats c))
+         (if unamb then (st_hist st =? st_hist (c_stats c)) && (st_float st =? st_float (c_stats c)) else true)
        else if unamb then stats_eqb st (c_stats c)
        else (st_series st =? st_series (c_stats c)) && (st_samples st =? st_samples (c_stats c)))
   end.
